@@ -140,6 +140,23 @@ fn edits(schema: &Schema, doc: &Document) -> Vec<Edit> {
                 }
             }
         }
+        // ... also with an unrelated interface / union as the condition
+        for (ii, i) in schema.interfaces.iter().enumerate() {
+            let theirs: std::collections::BTreeSet<usize> = schema.possible_types(Named::Interface(ii)).into_iter().collect();
+            if theirs.is_disjoint(&mine) && Named::Interface(ii) != l.parent {
+                let on = i.name.clone();
+                out.push(mk(Rule::ImpossibleTypeCondition, &|s| s.push(Selection::Inline { on: on.clone(), sel: vec![Selection::Typename] })));
+                break;
+            }
+        }
+        for (ui, u) in schema.unions.iter().enumerate() {
+            let theirs: std::collections::BTreeSet<usize> = schema.possible_types(Named::Union(ui)).into_iter().collect();
+            if theirs.is_disjoint(&mine) && Named::Union(ui) != l.parent {
+                let on = u.name.clone();
+                out.push(mk(Rule::ImpossibleTypeCondition, &|s| s.push(Selection::Inline { on: on.clone(), sel: vec![Selection::Typename] })));
+                break;
+            }
+        }
         // remove __typename from an abstract selection
         if l.parent.is_abstract() {
             out.push(mk(Rule::MissingTypename, &|s| s.retain(|x| !matches!(x, Selection::Typename))));
